@@ -93,6 +93,12 @@ def make_variants(ctx: Ctx, q: str, md: List[Dict[str, Any]], R, allow_fused: bo
     t, n = V.alpha_rename(tree, R, ["zz"])
     if n:
         out.append(("alpha_all_same", ast.unparse(t), "ast"))
+    # ... and the same with the names func_adl's own rewrites bind: the aggregate shortcuts (Count/Sum/Min/Max become
+    # Aggregate(.., lambda acc, v: ..)) and the simplifier's minted parameters (arg_<n>; a twice-bound `arg` is renamed by the translator)
+    for nm in ("acc", "v", "arg"):
+        t, n = V.alpha_rename(tree, R, [nm])
+        if n:
+            out.append((f"alpha_all_{nm}", ast.unparse(t), "ast"))
     t, n = V.alpha_rename_distinct(tree)
     if n:
         out.append(("alpha_all_distinct", ast.unparse(t), "ast"))
@@ -165,6 +171,23 @@ def run(ctx: Ctx) -> int:
             for body in ("e.Jets('A').Select(lambda j: j.color())", "e.Jets('A').Where(lambda j: j.color() == xAOD.Jet.Color.Red).Count()"):
                 q0 = f"ds.Select(lambda e: {body})"
                 groups.append(("atlas", {"query": q0, "features": {"enum_method_order": 2, f"k{k}": 1, "x": 1}}, make_variants(ctx, q0, [en, mt], ctx.rng("c08enum", k, body))))
+    # an aggregate shortcut (it becomes a lambda of func_adl's own: `lambda acc, v: ...`) inside a step that the simplifier
+    # merges with its neighbour (Where.Where, Select.Select, SelectMany then Where / Select): the user's names against func_adl's
+    if not ctx.replay:
+        for backend in sch.BACKENDS:
+            s = sch.fixed(backend)
+            C = s["main"]["coll"]
+            T = [f"ds.Select(lambda e: e.{C}('A').Where(lambda a: a.trkPts().Sum() > 10).Where(lambda b: b.pt() > 5).Select(lambda c: c.pt()))",
+                 f"ds.Select(lambda e: e.{C}('A').Where(lambda a: a.pt() > 5).Where(lambda b: b.trkPts().Count() > 1).Select(lambda c: c.trkPts().Max()))",
+                 f"ds.Select(lambda e: e.{C}('A').Select(lambda a: a.trkPts()).Select(lambda b: b.Sum()))",
+                 f"ds.Select(lambda e: e.{C}('A').Select(lambda a: (a.trkPts().Count(), a)).Select(lambda b: b[1].pt() * b[0]))",
+                 f"ds.SelectMany(lambda e: e.{C}('A')).Where(lambda a: a.trkPts().Min() < 20).Select(lambda b: b.trkPts().Sum() + b.pt())",
+                 f"ds.Where(lambda e: e.{C}('A').Count() > 1).Where(lambda f: f.{C}('B').Select(lambda a: a.pt()).Sum() > 1).Select(lambda g: g.{C}('A').Count())",
+                 f"ds.Select(lambda e: e.{C}('A').SelectMany(lambda a: a.trkPts()).Where(lambda b: b > 2).Count())",
+                 f"ds.Select(lambda e: e.{C}('A').Select(lambda a: a.tracks().Where(lambda t: t.pt() > a.trkPts().Sum()).Where(lambda u: u.pt() < a.pt()).Count()))"]
+            for k, q0 in enumerate(T):
+                groups.append((backend, {"query": q0, "features": {"shortcut_in_merged_step": 2, f"k{k}": 1, "x": 1}},
+                               make_variants(ctx, q0, diff.members_used(s, q0), ctx.rng("c08short", backend, k))))
     for f in karg:
         w = f["witness"]
         groups.append((w["backend"], {"query": w["base"], "features": {"witness": 2, "w": 2}, "witness_of": f},
